@@ -360,7 +360,7 @@ def _group_of(w, deck, a):
 
 def g_group_move(r):
     return dict(O.g_sl(r), path=[r.randint(0, 2) for _ in range(r.randint(1, 4))], attr=r.choice(["left", "top", "width", "height"]), v=g_pt(r),
-                inside=r.random() < 0.7, img=None)
+                inside=r.random() < 0.7, img=None, which=r.choice([None, None, 0, 1, 2]), member=r.choice([None, None, 0, 1]))
 
 
 @O.op("c17.group_move", "c17", weight=2.0)
@@ -375,9 +375,19 @@ def _group_move(w, deck, a):
     if not chain:
         raise O.Skip("no group")
     g = chain[-1]
-    setattr(g, a["attr"], max(0, a["v"]) if a["attr"] in ("width", "height") else a["v"])
+    # what is moved: the deepest group of the path, or an ancestor of it, or a leaf member of one of them (its group and everything
+    # above go stale); the addition below always goes into the deepest group
+    tgt = g if a.get("which") is None else chain[a["which"] % len(chain)]
+    if a.get("member") is not None:
+        leaves = [s_ for s_ in tgt.shapes if type(s_).__name__ != "GroupShape"]
+        if leaves:
+            tgt = leaves[a["member"] % len(leaves)]
+            w.stats.hit("c17_group_member_moved")
+    setattr(tgt, a["attr"], max(0, a["v"]) if a["attr"] in ("width", "height") else a["v"])
     _mark(deck, sl, chain, False)
     w.stats.hit("c17_group_moved")
+    if tgt is not g:
+        w.stats.hit("c17_moved_something_above_or_beside_the_group_added_to")
     if sum(1 for _ in O.walk_shapes(sl.shapes)) >= 40:
         return
     if a["inside"]:
@@ -540,6 +550,7 @@ def gen_trace(seed: int, tier: str) -> dict:
     n = r.randint(10, 35) if tier == "quick" else r.randint(20, 90)
     events, sw = common.gen_history(seed, fault_rate=common.fault_arm(seed), n_events=n, families=["c17"], always=("c17",), ckpt=0.05, reopen=0.05,
                                     restart=0.03, observe=0.02, jump=0.0, fork=0.03, warmup=False)
+    common.rewritten_between_sessions(seed, events, hows=("bool_words",))
     pre = [{"op": "add_slide", "layout": 6, "dt": 1.0}]
     return {"property": ID, "seed": seed, "tier": tier, "config": {"max_slides": 4},
             "start": [{"deck": S("start").choice(["default", "default", "f-shp-groupshape.pptx", "f-shp-connector-props.pptx", "f-shp-common-props.pptx", "f-shp-shapes.pptx"])}],
@@ -586,6 +597,9 @@ def pinned_traces(tier):
         evs.append({"op": "c17.group_move", "slide": 0, "path": [0, 0], "attr": attr, "v": v, "inside": True})
         evs.append({"op": "c17.group_move", "slide": 0, "path": [0], "attr": attr, "v": v + 11, "inside": True})
     evs += [{"op": "checkpoint", "sink": "seekable"}, {"op": "restart"}]
+    for which, member in ((0, None), (0, 0), (1, 0), (None, 0)):
+        for attr, v in (("left", 4000000), ("height", 9000000)):
+            evs.append({"op": "c17.group_move", "slide": 0, "path": [0, 0], "attr": attr, "v": v, "inside": True, "which": which, "member": member})
     out.append({"property": ID, "seed": "moved-group-then-add-inside-box", "tier": "pinned", "config": {"pinned": True}, "start": [{"deck": "default"}], "events": evs})
     # members handed to add_group_shape as an iterable that fails part-way (second picture unreadable), eager and lazy, top level and nested
     ok_src, bad_src = {"via": "stream", "pos": 0}, {"via": "stream", "pos": 0, "fault": {"kind": "eio", "at": 1}}
